@@ -87,7 +87,7 @@ c.setup(_setup)
 c.ensures('clears-the-flag', 'self._keep_going is False')
 
 # ---- the clock thread: every pass of its loop fires the event after the sleep, whatever the flag has become
-c = contract(CK, 'Clock.run', serves=['C09'], unwrap=1)
+c = contract(CK, 'Clock.run', serves=['C09', 'C08'], unwrap=1)
 def _setup(b, case):
     clk, start, cue, now0 = clock_obj(b)
     ev = clk.attrs['_event']
